@@ -57,8 +57,8 @@ E(ins, doms) == [ins |-> ins, doms |-> doms]
 Forms == {"dec"}       \* only push accepts hexadecimal immediates (io_operations.md)
 ErrCodes == {0, 7, 65535}
 
-ImmF == IF LEVEL = 1 THEN {V1, VU, VP, VM1} ELSE {V0, V1, V2, V16, V31, VU, VP, VP1, VM1, VX}
-ImmU == IF LEVEL = 1 THEN {V1, V31, VU} ELSE {V0, V1, V2, V16, V31, VU, VY}
+ImmF == IF LEVEL = 1 THEN {V0, V1, V2, VU, VP, VM1} ELSE {V0, V1, V2, V16, V31, VU, VP, VP1, VM1, VX}
+ImmU == IF LEVEL = 1 THEN {V0, V1, V2, V31, VU} ELSE {V0, V1, V2, V16, V31, VU, VY}
 ImmUNZ == ImmU \ {V0}
 ImmS == {Small(0), Small(1), Small(16), Small(31)}
 
